@@ -98,17 +98,12 @@ class XmlGenerator(TreeListener):
         self.xml[tree] = E("apply", *[self.xml[arg] for arg in tree.arguments], builtin=tree.name)
 
     def exitWhenEquation(self, tree: ast.WhenEquation):
-        self.xml[tree] = E(
-            "when",
-            E(
-                "cond",
-                self.xml[tree.conditions[0]],
-            ),
-            E(
-                "then",
-                *[self.xml[b] for b in tree.blocks[0]],
-            ),
-        )
+        # one cond/then pair per branch (when, elsewhen, ...)
+        branches = []
+        for cond, block in zip(tree.conditions, tree.blocks):
+            branches.append(E("cond", self.xml[cond]))
+            branches.append(E("then", *[self.xml[b] for b in block]))
+        self.xml[tree] = E("when", *branches)
 
     def exitClass(self, tree: ast.Class):
         self.xml[tree] = E(
